@@ -9,6 +9,7 @@
 import Proofs.C02Full
 import Proofs.C02Flux
 import Proofs.C02K
+import TaurexModel.EmissionBreakdown
 
 namespace Taurex.C02
 open Taurex.Emission
@@ -479,5 +480,43 @@ example : min (planck ⟨3, 1, 1, 1, 1, 1⟩ 2 7 / 3) (planck ⟨3, 1, 1, 1, 1, 
       intro w hw
       simp only [List.mem_cons, List.not_mem_nil, or_false] at hw
       rcases hw with rfl | rfl <;> norm_num) (by norm_num)
+
+/-! ### the per-contribution break-down (`model_contrib`): one star initialisation, one normalisation per contribution -/
+
+theorem normalisedBy_blocks (s : Option Nat) (g : Nat) (l : List Nat) :
+    normalisedBy s (l.flatMap (contribBlock g)) = l.map (fun i => (i, g, s)) := by
+  induction l with
+  | nil => rfl
+  | cons i r ih => simp [List.flatMap_cons, contribBlock, normalisedBy, ih]
+
+/-- In `model_contrib` every contribution, in list order and exactly once, is integrated on the grid in use and its flux divided
+    by the stellar SED that `Star.initialize` stored on THAT grid: each per-contribution eclipse spectrum is scaled by the
+    stellar blackbody of the wavenumbers it is reported on. -/
+theorem breakdown_normalised_on_own_grid (n : Nat) (clip : Bool) :
+    normalisedBy none (contribModelSteps n clip)
+      = (List.range n).map (fun i => (i, (if clip then 1 else 0), some (if clip then 1 else 0))) := by
+  unfold contribModelSteps
+  simp only [List.cons_append, List.nil_append, normalisedBy]
+  exact normalisedBy_blocks _ _ _
+
+theorem starInits_blocks (g : Nat) (l : List Nat) : starInits (l.flatMap (contribBlock g)) = 0 := by
+  induction l with
+  | nil => rfl
+  | cons i r ih =>
+    unfold starInits at ih ⊢
+    simp [List.flatMap_cons, contribBlock, ih]
+
+/-- … and the star is initialised exactly once however many contributions are normalised: the stored SED has to serve all of
+    them unchanged (the situation in which a `compute_final_flux` that rescales the stored SED shows). -/
+theorem breakdown_one_star_initialisation (n : Nat) (clip : Bool) : starInits (contribModelSteps n clip) = 1 := by
+  unfold contribModelSteps
+  have h := starInits_blocks (if clip then 1 else 0) (List.range n)
+  unfold starInits at h ⊢
+  simp [h]
+
+-- non-vacuity: three contributions on a clipped grid
+example : normalisedBy none (contribModelSteps 3 true) = [(0, 1, some 1), (1, 1, some 1), (2, 1, some 1)]
+    ∧ starInits (contribModelSteps 3 true) = 1 := by decide
+
 
 end Taurex.C02
